@@ -9,6 +9,7 @@ LEVEL = "translation_validation"
 def run(chk, tier):
     import gflow
     gflow.check_numeric_text(chk)
+    gflow.check_declared_presence(chk)      # presence() traits and everything else follow actual_presence
     e4.check(chk, ("traits",), tier)
     # type_traits<Tag>::min_value()/max_value()/null_value() return value_type's limits: those come from the XML
     # attribute or, when absent, from the generator's default tables, which must equal the SBE-derived constants
